@@ -36,6 +36,7 @@ var checks = []*CheckSpec{
 		},
 		Assumptions: append([]string{
 			"bounds: sets of <= 2 duplicate-free elements, byte arrays <= 2 bytes, symbol strings <= 2 (quick) / 3 (thorough) bytes, operator sequences <= 2 (quick) / 3 (thorough) operations; all 64-bit scalar values symbolic",
+			"arithmetic is additionally checked with one operand fixed to each of 13 boundary constants (MinInt64, MinInt64+1, -2^32, -3037000500, -2, -1, 0, 1, 2, 3037000500, 2^32, MaxInt64-1, MaxInt64) and the other symbolic, on both sides: multiplication/division by a constant is decidable where the general 64x64 product is not",
 			"regular-expression semantics (matches) are outside the solver claim: Go's regexp is trusted",
 		}, stdAssumptions...),
 		Models:      []string{modelBig},
@@ -90,7 +91,9 @@ func init() {
 				Covers:   []string{"returned", "success", "error"}},
 		},
 		Assumptions: append([]string{
-			"limit direction of the claim uses a chain program of known depth d <= 2 (quick) / 3 (thorough) with symbolic names/constant: fixpoint has d+1 facts and needs d+1 iterations; maxFacts in [0,1000] and maxIterations in [0,100] fully symbolic",
+			"limit direction of the claim uses a chain program of known depth d <= 3 (quick) / 4 (thorough) with symbolic names/constant, rules registered in dependency order and in reverse order: fixpoint has d+1 facts and needs d+1 iterations; maxFacts in [0,1000] and maxIterations in [0,100] fully symbolic",
+			"VerifC11General: the symbolic program family of C05 (2 facts, 1 rule, <= 1 (quick) / 2 (thorough) body predicates) under symbolic limits and deadline: success implies the complete fixpoint within the fact limit; every error is exactly one limit sentinel",
+			"VerifC11AuthorizerLimits: AuthorizerFor and Authorizer with WithWorldOptions, via Authorize (authority world and block world) and via Query",
 			"time is a symbolic input: the deadline may pass at any poll of ctx.Done, at the caller's select, or race with the worker's final send; rule heads cannot contain expressions, so divergence reduces to exceeding a limit",
 		}, stdAssumptions...),
 		Models:      []string{modelCtx, modelBig},
@@ -110,7 +113,8 @@ func init() {
 			{Pkg: "biscuit", Func: "VerifC20Sequence", Quick: p("draws", 2), Thorough: p("draws", 4), Covers: []string{"ran-dry", "all-drawn"}},
 		},
 		Assumptions: append([]string{
-			"the supplied source delivers k symbolic bytes (k = 0..32, every value) in one read, byte-by-byte or in 7-byte chunks, then returns an error; or never fails",
+			"the supplied source delivers k symbolic bytes (k = 0..32, every value) in one read, byte-by-byte or in 7-byte chunks, then returns an error (a custom error, io.EOF or io.ErrUnexpectedEOF; alone or together with the last chunk); or never fails",
+			"VerifC20Sequence: ONE source feeds New, Append, Append(, Append) and fails after k bytes in total, every k up to 32*draws (draws = 2 quick / 4 thorough)",
 			"operations: New, Builder.Build with WithRNG, Append",
 		}, stdAssumptions...),
 		Models:      []string{modelSig, modelCodec},
